@@ -33,8 +33,8 @@ HOSTS = ["h1", "h2", "h3", "0:0:0:0:0:0:0:1", "h_1", "hx1"]
 def _auth(h, p):
     return (f"[{h}]" if ":" in h else h) + f":{p}"
 PORTS = [1965, 1966]
-KINDS = ["rsa-a", "ec-a", "ec-b", "ed-a", "hostile-bool", "hostile-v4", "twin-a", "twin-b"]
-PARSABLE = ["rsa-a", "ec-a", "ec-b", "ed-a", "twin-a", "twin-b"]
+KINDS = ["rsa-a", "ec-a", "ec-b", "ed-a", "hostile-bool", "hostile-v4", "twin-a", "twin-b", "ec-expired"]
+PARSABLE = ["rsa-a", "ec-a", "ec-b", "ed-a", "twin-a", "twin-b", "ec-expired"]
 
 
 def op_st():
@@ -276,6 +276,11 @@ def run_history(case: dict):
                     continue
                 res, log = await fetch(o, hp, op.get("to"))
                 stats["fetches"] += 1
+                if o == "get-ca" and state[hp] == "ec-expired" and res[0] == "exc":
+                    # CA validation refuses an expired certificate before TOFU is reached: nothing to judge, nothing pinned
+                    if table() != model:
+                        return viol("trust-store-differs-from-model", f"after {where} (refused by CA validation)")
+                    continue
                 # walk the hops with the reference
                 failed = None
                 contacted = [(h, p) for (h, p, _t) in log]
